@@ -123,17 +123,27 @@ Qed.
 Lemma cast_identity t v : cast t t v = v.
 Proof. unfold cast. destruct t; reflexivity. Qed.
 
-(* null in, null out -- or the caster pair does not exist (AnalysisException), or is not modelled *)
-Definition modelled_target (t : ty) : bool := match t with TFloat | TDouble => false | _ => true end.
-
+(* null in, null out -- or the caster pair does not exist at all (AnalysisException) *)
 Lemma cast_null from to :
-  modelled_target to = true ->
   cast from to VNone = VNone \/ cast from to VNone = VErr "AnalysisException".
-Proof. destruct from, to; simpl; intros H; try discriminate; auto. Qed.
+Proof. destruct from, to; simpl; auto. Qed.
 
 Lemma cast_null_supported from to :
-  modelled_target to = true -> cast from to VNone <> VErr "AnalysisException" -> cast from to VNone = VNone.
-Proof. intros H Hn. destruct (cast_null from to H); [assumption|contradiction]. Qed.
+  cast from to VNone <> VErr "AnalysisException" -> cast from to VNone = VNone.
+Proof. intros Hn. destruct (cast_null from to); [assumption|contradiction]. Qed.
+
+(* the only pairs for which a null raises are casts to date from a type that cannot be cast to date at
+   all: every value of such a type (ints, booleans, floats) raises the same AnalysisException *)
+Lemma cast_null_raises_only_if_no_such_cast from to :
+  cast from to VNone = VErr "AnalysisException" ->
+  to = TDate /\ from <> TString /\ from <> TDate /\
+  forall v, (forall s, v <> VStr s) -> (forall d, v <> VTup d) -> cast from to v = VErr "AnalysisException".
+Proof.
+  destruct from, to; simpl; intros H; try discriminate;
+    (split; [reflexivity|]); (split; [discriminate|]); (split; [discriminate|]);
+    intros v Hs Hd; destruct v; try reflexivity;
+    solve [exfalso; eapply Hs; reflexivity | exfalso; eapply Hd; reflexivity].
+Qed.
 
 (* ---- booleans and strings *)
 Lemma cast_string_bool s :
